@@ -317,7 +317,10 @@ Definition cachekey_pre (q : question) (cd : bool) (p : option scope) : bytes :=
    record of the question's type (the wire chase continues there) *)
 Record entry := mk_entry {
   e_q : question; e_cd : bool; e_scope : option scope; e_id : N;
-  e_alias : option bytes }.
+  e_alias : option bytes;
+  (* shape of the stored body as the wire chase's gates see it: it holds a record of the question's
+     type; it is NOERROR, has no authority / additional records and only re-encodable answer types *)
+  e_has_qtype : bool; e_plain : bool }.
 
 (* equalNameASCIIFold *)
 Fixpoint equal_name_ascii_fold (a b : bytes) : bool :=
@@ -352,7 +355,8 @@ Inductive fkind := FQuestion | FZone.
 Record fentry := mk_fentry {
   f_kind : fkind; f_q : question; f_cd : bool; f_scope : option scope;   (* question kind *)
   f_zone : bytes; f_zclass : N;                                            (* zone kind *)
-  f_active : bool; f_id : N }.
+  f_active : bool; f_id : N;
+  f_streak : N; f_retry : N }.     (* backoff generation; retry-after instant (ms on the history's clock) *)
 
 (* subtree cuts *)
 Record cut := mk_cut { c_name : bytes; c_class : N; c_wire : bool (* wireFull != nil *); c_active : bool; c_id : N }.
@@ -402,6 +406,19 @@ Fixpoint first_some {A B} (f : A -> option B) (l : list A) : option B :=
   match l with
   | [] => None
   | x :: r => match f x with Some y => Some y | None => first_some f r end
+  end.
+
+(* strings.EqualFold, exactly, on the domain D the model is evaluated on: byte strings whose
+   non-ASCII bytes are only the UTF-8 encodings of U+212A KELVIN SIGN (E2 84 AA) and U+017F LATIN
+   SMALL LETTER LONG S (C5 BF).  Unicode simple case folding puts KELVIN SIGN in the orbit of K/k and
+   LONG S in the orbit of S/s, every other rune of D folds as ASCII, so on D two strings are EqualFold
+   exactly when they are equal under the A–Z fold after these two runes are replaced by k and s. *)
+Fixpoint fold_norm (s : bytes) : bytes :=
+  match s with
+  | 226 :: 132 :: 170 :: r => 107 :: fold_norm r
+  | 197 :: 191 :: r => 115 :: fold_norm r
+  | x :: r => x :: fold_norm r
+  | [] => []
   end.
 
 Section Store.
@@ -500,8 +517,11 @@ Section Store.
     match fuel with
     | O => None
     | S f =>
+        if negb (e_plain e) then None                       (* rcode / section-shape / record-type gates *)
+        else if e_has_qtype e then Some [e]                 (* the terminal record: the chain is complete *)
+        else
         match e_alias e with
-        | None => Some [e]
+        | None => None                                      (* no terminal and no continuation *)
         | Some target =>
             if fold_wire_names_equal target reqw then None else
             match serve_wire_exact s target qtype qclass cd with
@@ -649,18 +669,18 @@ Section Store.
 
   (* setFromResponseWithKey for a cacheable answer: identity = response question,
      keyCD, normalised scope; filed under the caller's key *)
-  Definition set_from_response (k : K) (rq : question) (key_cd : bool) (p : option scope) (id : N) (alias : option bytes) (s : store) : store :=
-    set_entry false k (mk_entry rq key_cd (normalize_scope p) id alias) s.
+  Definition set_from_response (k : K) (rq : question) (key_cd : bool) (p : option scope) (id : N) (alias : option bytes) (hasq plain : bool) (s : store) : store :=
+    set_entry false k (mk_entry rq key_cd (normalize_scope p) id alias hasq plain) s.
 
   Definition entry_same (a b : entry) : bool := e_id a =? e_id b.   (* pointer identity: ids are unique per stored response *)
 
   (* ReplaceIfCurrent (positive branch): CAS on the entry currently at key;
      the replacement takes the response's question and INHERITS cd and scope *)
-  Definition replace_if_current (k : K) (expected : entry) (rq : question) (id : N) (alias : option bytes) (s : store) : store * bool :=
+  Definition replace_if_current (k : K) (expected : entry) (rq : question) (id : N) (alias : option bytes) (hasq plain : bool) (s : store) : store * bool :=
     match kget k (st_pos s) with
     | Some cur =>
         if entry_same cur expected
-        then (set_entry false k (mk_entry rq (e_cd expected) (e_scope expected) id alias) s, true)
+        then (set_entry false k (mk_entry rq (e_cd expected) (e_scope expected) id alias hasq plain) s, true)
         else (s, false)
     | None => (s, false)
     end.
@@ -668,7 +688,7 @@ Section Store.
   (* strings.EqualFold restricted to what the model decides: on byte strings
      below 0x80 it is ASCII case-insensitive equality (the fast path of the
      library function); the model is only evaluated on such names *)
-  Definition equal_fold_ascii (a b : bytes) : bool := bytes_eqb (fold a) (fold b).
+  Definition equal_fold_ascii (a b : bytes) : bool := bytes_eqb (fold (fold_norm a)) (fold (fold_norm b)).
 
   (* Store.Purge: the two unscoped keys leave both sub-caches; then a ForEach
      sweep collects the keys of scoped entries for the question (type, class,
@@ -716,35 +736,66 @@ Section Store.
     | FZone, FZone => bytes_eqb (f_zone a) (f_zone b) && (f_zclass a =? f_zclass b)
     | _, _ => false
     end.
-  (* FailureCache.record: a different key under the same hash is replaced; the
-     same key keeps its identity (streak / retry-after arithmetic is C13's) *)
-  Definition record_failure (k : K) (cand : fentry) (s : store) : store :=
+  (* FailureCache.backoff: initial * 2^(streak-1), capped at max (all in ms) *)
+  Fixpoint backoff_loop (n : nat) (maxttl ttl : N) : N :=
+    match n with
+    | O => ttl
+    | S n' => if ttl <? maxttl then (if maxttl / 2 <? ttl then maxttl else backoff_loop n' maxttl (2 * ttl)) else ttl
+    end.
+  Definition backoff (initial maxttl streak : N) : N :=
+    let ttl := backoff_loop (N.to_nat (streak - 1)) maxttl initial in
+    if maxttl <? ttl then maxttl else ttl.
+
+  (* FailureCache.record at instant [now]: a different key under the same hash is replaced by a
+     first generation; the same key is left alone while active and renewed with the next backoff
+     generation once expired (streak restarts after an idle period of maxttl) *)
+  Definition record_failure (now initial maxttl : N) (k : K) (cand : fentry) (s : store) : store :=
+    let put fe := mk_store (st_pos s) (st_neg s) (kset k fe (st_fail s)) (st_cuts s) (st_cuthash s) in
+    let first := mk_fentry (f_kind cand) (f_q cand) (f_cd cand) (f_scope cand) (f_zone cand) (f_zclass cand) true (f_id cand) 1 (now + initial) in
     match kget k (st_fail s) with
     | Some cur =>
-        if failure_same_key cur cand then s
-        else mk_store (st_pos s) (st_neg s) (kset k cand (st_fail s)) (st_cuts s) (st_cuthash s)
-    | None => mk_store (st_pos s) (st_neg s) (kset k cand (st_fail s)) (st_cuts s) (st_cuthash s)
+        if failure_same_key cur cand then
+          if f_active cur then s
+          else
+            let streak := if maxttl <=? now - f_retry cur then 1 else f_streak cur + 1 in
+            put (mk_fentry (f_kind cur) (f_q cur) (f_cd cur) (f_scope cur) (f_zone cur) (f_zclass cur) true (f_id cur)
+                           streak (now + backoff initial maxttl streak))
+        else put first
+    | None => put first
     end.
-  Definition record_fquestion (q : question) (cd : bool) (p : option scope) (id : N) (s : store) : store :=
+  Definition record_fquestion (now initial maxttl : N) (q : question) (cd : bool) (p : option scope) (id : N) (s : store) : store :=
     let q' := mk_q (canonical (q_name q)) (q_type q) (q_class q) in
     let p' := normalize_scope p in
-    record_failure (salt_fq (H (fq_pre q' cd p'))) (mk_fentry FQuestion q' cd p' [] 0 true id) s.
-  Definition record_fzone (zone : bytes) (qclass : N) (id : N) (s : store) : store :=
+    record_failure now initial maxttl (salt_fq (H (fq_pre q' cd p'))) (mk_fentry FQuestion q' cd p' [] 0 true id 1 0) s.
+  Definition record_fzone (now initial maxttl : N) (zone : bytes) (qclass : N) (id : N) (s : store) : store :=
     let z := canonical zone in
-    record_failure (salt_fz (H (fz_pre z qclass))) (mk_fentry FZone (mk_q [] 0 0) false None z qclass true id) s.
+    record_failure now initial maxttl (salt_fz (H (fz_pre z qclass))) (mk_fentry FZone (mk_q [] 0 0) false None z qclass true id 1 0) s.
+
+  (* the failure clock moves to [now]: an entry is a hit only while now is before its retry-after *)
+  Definition set_failure_clock (now : N) (s : store) : store :=
+    mk_store (st_pos s) (st_neg s)
+      (map (fun kv => (fst kv, let fe := snd kv in
+                       mk_fentry (f_kind fe) (f_q fe) (f_cd fe) (f_scope fe) (f_zone fe) (f_zclass fe)
+                                 (now <? f_retry fe) (f_id fe) (f_streak fe) (f_retry fe))) (st_fail s))
+      (st_cuts s) (st_cuthash s).
+
+  (* a subtree cut's lifetime ended *)
+  Definition expire_cut (id : N) (s : store) : store :=
+    let off (c : cut) := if c_id c =? id then mk_cut (c_name c) (c_class c) (c_wire c) false (c_id c) else c in
+    mk_store (st_pos s) (st_neg s) (st_fail s) (map off (st_cuts s)) (map (fun kc => (fst kc, off (snd kc))) (st_cuthash s)).
 
   (* a failure entry placed directly under the hash of ANOTHER failure key (what a
      64-bit collision between two failure keys looks like) *)
   Definition seed_fquestion (kq : question) (kcd : bool) (kp : option scope)
-                            (q : question) (cd : bool) (p : option scope) (id : N) (s : store) : store :=
+                            (q : question) (cd : bool) (p : option scope) (id : N) (retry : N) (s : store) : store :=
     let kq' := mk_q (canonical (q_name kq)) (q_type kq) (q_class kq) in
     let q' := mk_q (canonical (q_name q)) (q_type q) (q_class q) in
     mk_store (st_pos s) (st_neg s)
-      (kset (salt_fq (H (fq_pre kq' kcd (normalize_scope kp)))) (mk_fentry FQuestion q' cd (normalize_scope p) [] 0 true id) (st_fail s))
+      (kset (salt_fq (H (fq_pre kq' kcd (normalize_scope kp)))) (mk_fentry FQuestion q' cd (normalize_scope p) [] 0 true id 1 retry) (st_fail s))
       (st_cuts s) (st_cuthash s).
-  Definition seed_fzone (kzone : bytes) (kclass : N) (zone : bytes) (qclass : N) (id : N) (s : store) : store :=
+  Definition seed_fzone (kzone : bytes) (kclass : N) (zone : bytes) (qclass : N) (id : N) (retry : N) (s : store) : store :=
     mk_store (st_pos s) (st_neg s)
-      (kset (salt_fz (H (fz_pre (canonical kzone) kclass))) (mk_fentry FZone (mk_q [] 0 0) false None (canonical zone) qclass true id) (st_fail s))
+      (kset (salt_fz (H (fz_pre (canonical kzone) kclass))) (mk_fentry FZone (mk_q [] 0 0) false None (canonical zone) qclass true id 1 retry) (st_fail s))
       (st_cuts s) (st_cuthash s).
 
   (* FailureCache.ResetQuestion: delete the exact history when the full key still matches *)
@@ -785,8 +836,8 @@ Section Store.
 
   (* Store.SetFromResponseWithKey / SetFromResponseScoped on a cacheable answer:
      file the entry, and for an unscoped write reset the question's failure history *)
-  Definition store_set_from_response (k : K) (rq : question) (key_cd : bool) (p : option scope) (id : N) (alias : option bytes) (s : store) : store :=
-    let s1 := set_from_response k rq key_cd p id alias s in
+  Definition store_set_from_response (k : K) (rq : question) (key_cd : bool) (p : option scope) (id : N) (alias : option bytes) (hasq plain : bool) (s : store) : store :=
+    let s1 := set_from_response k rq key_cd p id alias hasq plain s in
     match normalize_scope p with
     | None => reset_fquestion rq key_cd None s1
     | Some _ => s1
@@ -838,11 +889,11 @@ Section Store.
   Definition writeback_answer (min4 min6 : N) (q : question) (cd : bool) (client : option scope) (scope_bits : N) (id : N) (s : store) : store :=
     let sc := writeback_scope min4 min6 client scope_bits in
     reset_matching q cd client
-      (store_set_from_response (H (cachekey_pre q cd sc)) q cd sc id None s).
+      (store_set_from_response (H (cachekey_pre q cd sc)) q cd sc id None true true s).
   (* every SERVFAIL exit (downstream SERVFAIL, alias chase ending in SERVFAIL): the failure is
      recorded for the REQUEST's audience *)
-  Definition writeback_failure (q : question) (cd : bool) (client : option scope) (id : N) (s : store) : store :=
-    record_fquestion q cd client id s.
+  Definition writeback_failure (now initial maxttl : N) (q : question) (cd : bool) (client : option scope) (id : N) (s : store) : store :=
+    record_fquestion now initial maxttl q cd client id s.
 
   (* Cache.additionalAnswer over a Queryer that answers from the store (Store.Get): after an alias
      hit, the target is looked up with the CLIENT's type, class and CD (the sub-query is built by
@@ -852,6 +903,7 @@ Section Store.
     match fuel with
     | O => []
     | S f =>
+        if e_has_qtype e then [] else
         match e_alias e with
         | None => []
         | Some tw =>
